@@ -62,7 +62,8 @@ fn format_number(
     debug_assert!(parts.len() <= 2);
     // Manipulate fractional part based on configuration.
     match scale {
-        Some(0) => parts.truncate(1),
+        // A negative scale cannot keep fewer than zero fractional digits.
+        Some(i) if i <= 0 => parts.truncate(1),
         Some(i) => {
             // TODO consider removal options
             #[allow(clippy::cast_sign_loss, clippy::cast_possible_truncation)]
